@@ -314,7 +314,7 @@ def gen_case(seed, tier, i):
         opened = 1
     knobs = {'cached_size_trigger': rng.choice([1, 2, 8, 600]),
              'call_signatures_validity': rng.choice([0, 3.0, 3.0, 10**6]),
-             'fast_parser': rng.random() < 0.85}
+             'fast_parser': rng.random() < 0.7}
     max_steps = 12 if tier == 'quick' else 30
     nsteps = rng.randint(4, max_steps)
     ops = [{'op': 'knob', 'name': k, 'value': v} for k, v in sorted(knobs.items())]
@@ -340,12 +340,21 @@ def gen_case(seed, tier, i):
             ops.append({'op': 'clear_caches', 'delete_all': rng.random() < 0.6})
         elif r < 0.93:
             ops.append({'op': 'project_search', 'q': rng.choice(['func', 'Klass', 'helper', 'Local', 'ma.func', 'VAL'])})
-        elif r < 0.97:
+        elif r < 0.95:
             ops.append({'op': 'gc'})
+        elif r < 0.975:
+            # the user (or plug-in) flips a documented setting in the middle of a session;
+            # the unchanged text is then asked about again
+            knobs_now = not knobs.get('_fp_now', knobs['fast_parser'])
+            knobs['_fp_now'] = knobs_now
+            ops.append({'op': 'knob', 'name': 'fast_parser', 'value': knobs_now})
+            ops.append(_query(rng, bufs[b], editors[b].text))
+            steps += 1
         else:
             # re-ask the unchanged text (same-lines branch of the diff parser)
             ops.append(_query(rng, bufs[b], editors[b].text))
             steps += 1
+    knobs.pop('_fp_now', None)
     return {'id': 'c08-%d' % i, 'init': init, 'ops': ops, 'hashseed': rng.randint(0, 2), 'knobs': knobs,
             'cwd': 'w' if opened is not None else None}
 
